@@ -42,6 +42,7 @@ def showKey (k : NatKey) : String :=
 def showUdpEv : UdpEv → String
   | .open_ c p => s!"open {c} {tok p}"
   | .data c p => s!"data {c} {tok p}"
+  | .close c => s!"close {c}"
   | .raised => "raised"
 
 def stepU (s : UdpTable) (line : String) : UdpTable × List String :=
@@ -165,13 +166,13 @@ def stepU (s : UdpTable) (line : String) : UdpTable × List String :=
       | .overflow => (s, ["overflow"])
     | _, _, _ => bad
   | ["udpnew"] => ([], ["ok"])
-  | ["udpacc", fam, src, ip, port, data, fresh] =>
+  | ["udpacc", fam, src, ip, port, data, fresh, now] =>
     let fresh? : Option (Option Nat) := if fresh == "N" then some none else fresh.toNat?.map some
-    match fam.toNat?, src.toNat?, bytesOfHex ip, port.toInt?, bytesOfHex data, fresh? with
-    | some f, some src, some ip, some p, some d, some fr =>
-      let r := onacceptUdp s f src ip p d fr
+    match fam.toNat?, src.toNat?, bytesOfHex ip, port.toInt?, bytesOfHex data, fresh?, now.toNat? with
+    | some f, some src, some ip, some p, some d, some fr, some now =>
+      let r := onacceptUdp s f src ip p d fr now
       (r.1, [if r.2.isEmpty then "-" else " ".intercalate (r.2.map showUdpEv)])
-    | _, _, _, _, _, _ => bad
+    | _, _, _, _, _, _, _ => bad
   | ["#flush"] => (s, [])
   | _ => bad
 
